@@ -317,6 +317,19 @@ fn b64(s: &str) -> Result<Vec<u8>, String> {
     Ok(out)
 }
 
+fn b64_encode(data: &[u8]) -> String {
+    const T: &[u8; 64] = b"ABCDEFGHIJKLMNOPQRSTUVWXYZabcdefghijklmnopqrstuvwxyz0123456789+/";
+    let mut out = String::new();
+    for ch in data.chunks(3) {
+        let n = (ch[0] as u32) << 16 | (*ch.get(1).unwrap_or(&0) as u32) << 8 | *ch.get(2).unwrap_or(&0) as u32;
+        out.push(T[(n >> 18) as usize & 63] as char);
+        out.push(T[(n >> 12) as usize & 63] as char);
+        out.push(if ch.len() > 1 { T[(n >> 6) as usize & 63] as char } else { '=' });
+        out.push(if ch.len() > 2 { T[n as usize & 63] as char } else { '=' });
+    }
+    out
+}
+
 fn contains(hay: &[u8], needle: &[u8]) -> bool {
     hay.windows(needle.len()).any(|w| w == needle)
 }
@@ -391,7 +404,26 @@ pub fn check_stored(c: &StoredCase) -> CheckResult {
                 Ok(Box::new(h))
             };
             taskchampion::server::verif::set_draws(vec![], Some(255));
-            let mut servers = [mk(0)?, mk(1)?];
+            // the two clients start on a brand-new store at the same time (interleaving of their
+            // requests chosen by the case), so both take part in creating the salt
+            let mut servers: [Box<dyn Server>; 2] = {
+                use crate::engine::sched::{run_scheduled, Client};
+                let clients: Vec<Client<'_, Result<Box<dyn Server>, Failure>>> = (0..2)
+                    .map(|i| {
+                        let h = store.handle(i);
+                        h.set_gated(true);
+                        let secret = c.secret.clone();
+                        Box::pin(async move {
+                            let r = cloud_server_new(h.clone(), secret).await;
+                            h.set_gated(false);
+                            r.map(|s| Box::new(s) as Box<dyn Server>).map_err(|e| Failure::new("backend-open", format!("{e}")))
+                        }) as Client<'_, _>
+                    })
+                    .collect();
+                let schedule: Vec<u8> = (0..8).map(|b| if c.tamper >> b & 1 == 1 { 255 } else { 0 }).collect();
+                let mut out = run_scheduled(clients, &schedule).outputs.into_iter();
+                [out.next().unwrap()?, out.next().unwrap()?]
+            };
             drive(&mut servers, &c.commits, if c.snapshot { Some(0) } else { None })?;
             let objs = store.raw_list();
             let salt = objs
@@ -419,6 +451,35 @@ pub fn check_stored(c: &StoredCase) -> CheckResult {
                     })?;
                     rep.class("snapshot-object-checked");
                 }
+            }
+            // tamper with the stored snapshot: it must be refused, not ignored or returned
+            if let Some((name, _, _)) = objs.iter().find(|(n, _, _)| n.starts_with("s-")) {
+                let (t, orig) = store.raw_get(name).unwrap();
+                let mut variants: Vec<(&str, Vec<u8>)> = vec![];
+                let mut v = orig.clone();
+                let pos = (c.tamper as usize * 11) % v.len();
+                v[pos] ^= 0x20;
+                variants.push(("a flipped bit", v));
+                variants.push(("truncation", orig[..orig.len() - 1 - (c.tamper as usize % 16).min(orig.len() - 1)].to_vec()));
+                // (a version object is bound to its own version id exactly like the snapshot of that
+                // version, so only the content of ANOTHER version is foreign to this snapshot)
+                let snap_vid = Uuid::parse_str(&name[2..]).unwrap_or(Uuid::nil());
+                if let Some((vn, _)) = version_objs.iter().find(|(_, child)| *child != snap_vid) {
+                    variants.push(("replacement by another version's object content", store.raw_get(vn).unwrap().1));
+                }
+                for (what, bytes) in variants {
+                    store.raw_put(name, t, bytes);
+                    let mut fresh = mk(8)?;
+                    let r = block_on(fresh.get_snapshot());
+                    crate::ensure!(
+                        r.is_err(),
+                        "stored-snapshot-tamper-accepted",
+                        "after {what} of the stored snapshot {name} get_snapshot returned {} instead of an error",
+                        match &r { Ok(None) => "Ok(None)".to_string(), Ok(Some((v, d))) => format!("Ok(Some(({v}, {} bytes)))", d.len()), Err(_) => unreachable!() }
+                    );
+                }
+                store.raw_put(name, t, orig);
+                rep.class("tampered-snapshot-rejected");
             }
             // tamper with what is stored
             if !version_objs.is_empty() {
@@ -520,6 +581,21 @@ pub fn check_stored(c: &StoredCase) -> CheckResult {
                     );
                     rep.class("tampered-http-reply-rejected");
                 }
+                let has_snapshot = http.state.lock().unwrap().chains.get(&client_id).map(|c| c.snapshot.is_some()).unwrap_or(false);
+                if has_snapshot {
+                    for t in [Tamper::FlipBit(c.tamper as usize * 13), Tamper::WrongParentHeader, Tamper::SwapBody] {
+                        http.state.lock().unwrap().tamper = t.clone();
+                        let mut fresh = mk()?;
+                        let r = block_on(fresh.get_snapshot());
+                        crate::ensure!(
+                            r.is_err(),
+                            "stored-snapshot-tamper-accepted",
+                            "with the snapshot reply tampered ({t:?}: flipped bit / version id header of another version / a version's body) get_snapshot returned {} instead of an error",
+                            match &r { Ok(None) => "Ok(None)".to_string(), Ok(Some((v, d))) => format!("Ok(Some(({v}, {} bytes)))", d.len()), Err(_) => unreachable!() }
+                        );
+                    }
+                    rep.class("tampered-snapshot-rejected");
+                }
                 http.state.lock().unwrap().tamper = Tamper::None;
             }
         }
@@ -610,6 +686,47 @@ pub fn check_stored(c: &StoredCase) -> CheckResult {
             // also nothing in the git object database in the clear (loose objects are zlib
             // streams; check the working tree history via `git log -p` is not needed: every
             // committed blob is one of the files checked above)
+            let commit_all = |msg: &str| -> Result<(), Failure> {
+                for args in [vec!["add", "-A"], vec!["-c", "user.email=t@local", "-c", "user.name=t", "commit", "-q", "-m", msg]] {
+                    let out = std::process::Command::new("git").args(&args).current_dir(&path).output().map_err(|e| Failure::new("infra", format!("git: {e}")))?;
+                    crate::ensure!(out.status.success(), "infra", "git {args:?} failed: {}", String::from_utf8_lossy(&out.stderr));
+                }
+                Ok(())
+            };
+            let snap_path = path.join("snapshot");
+            if let Ok(orig) = std::fs::read(&snap_path) {
+                let sj: serde_json::Value = serde_json::from_slice(&orig).map_err(|e| Failure::new("git-snapshot", format!("{e}")))?;
+                let payload = b64(sj["payload"].as_str().unwrap_or("")).map_err(|e| Failure::new("git-snapshot", e))?;
+                let mut variants: Vec<(&str, serde_json::Value)> = vec![];
+                let mut p2 = payload.clone();
+                let pos = (c.tamper as usize * 11) % p2.len();
+                p2[pos] ^= 0x20;
+                let mut j = sj.clone();
+                j["payload"] = b64_encode(&p2).into();
+                variants.push(("a flipped bit in the payload", j));
+                let mut j = sj.clone();
+                j["payload"] = b64_encode(&payload[..payload.len() - 1]).into();
+                variants.push(("truncation of the payload", j));
+                let mut j = sj.clone();
+                let vid = Uuid::parse_str(sj["version_id"].as_str().unwrap_or("")).unwrap_or(Uuid::nil());
+                j["version_id"] = Uuid::from_u128(vid.as_u128() ^ 1).to_string().into();
+                variants.push(("re-labelling with another version id", j));
+                for (what, j) in variants {
+                    std::fs::write(&snap_path, serde_json::to_vec(&j).unwrap()).unwrap();
+                    commit_all("tampered snapshot")?;
+                    let mut fresh = mk()?;
+                    let r = block_on(fresh.get_snapshot());
+                    crate::ensure!(
+                        r.is_err(),
+                        "stored-snapshot-tamper-accepted",
+                        "after {what} of the committed snapshot file get_snapshot returned {} instead of an error",
+                        match &r { Ok(None) => "Ok(None)".to_string(), Ok(Some((v, d))) => format!("Ok(Some(({v}, {} bytes)))", d.len()), Err(_) => unreachable!() }
+                    );
+                }
+                std::fs::write(&snap_path, &orig).unwrap();
+                commit_all("snapshot restored")?;
+                rep.class("tampered-snapshot-rejected");
+            }
             if !files.is_empty() {
                 files.sort();
                 let name = &files[c.tamper as usize % files.len()];
@@ -661,14 +778,16 @@ pub fn run(e: &Engine) {
             e.record_violation("seal-unseal-tamper", f, &serde_json::json!({"nonces_examined": all.len()}));
         }
     }
+    e.set_worker_cap(6);
     e.campaign(
         "stored-form",
-        "two replicas with marker strings in every value sync through the object-store server (key derived from the stored random salt), the git server, or the HTTP client against the harness's protocol server (salt = client id, versions bound to the parent id, snapshots to their own); every stored version/snapshot must open with the independent implementation bound to its own version id, no marker may occur in anything stored, and a flipped bit or swapped object must make the Server call fail; non-trivial = at least one stored version checked",
+        "two replicas with marker strings in every value sync through the object-store server (key derived from the stored random salt), the git server, or the HTTP client against the harness's protocol server (salt = client id, versions bound to the parent id, snapshots to their own); every stored version/snapshot must open with the independent implementation bound to its own version id, no marker may occur in anything stored, and a flipped bit, truncation, re-labelling or swapped object (versions and snapshots) must make the Server call fail; non-trivial = at least one stored version checked",
         e.tier.pick(36, 600),
         stored_strategy,
         |c| serde_json::to_value(c).unwrap(),
         check_stored,
     );
+    e.set_worker_cap(u64::MAX);
     e.fuzz_corpus("c13_unseal");
     e.fuzz_campaign("c13_unseal", 1000000);
 }
